@@ -255,10 +255,12 @@ def mul (steps : Nat) (d : Dep) (x y : PB) : Except Err PB :=
 
 /-- `Pbox.div`: `self.mul(1 / other, swapped)`; `1 / other` is `1 * other.reciprocal()`,
 a number operation on the reciprocal -/
-def div (steps : Nat) (d : Dep) (x y : PB) : Except Err PB := do
-  let r ← recip steps y
-  let r1 ← numberOp steps (· * ·) r 1
-  mul steps (swapPO d) x r1
+def div (steps : Nat) (d : Dep) (x y : PB) : Except Err PB :=
+  -- `1 / other` is `other.__rtruediv__(1)`, whose bare `except` turns any failure into
+  -- `NotImplemented`, i.e. a `TypeError` for the caller
+  match (recip steps y >>= fun r => numberOp steps (· * ·) r 1) with
+  | .error _ => .error .Type
+  | .ok r1 => mul steps (swapPO d) x r1
 
 def binop (steps : Nat) (o : Op) (d : Dep) (x y : PB) : Except Err PB :=
   match o with
